@@ -273,6 +273,8 @@ def run(P, R, tier):
     quick_rule(P, R, pp[0])
     inert_rule(P, R)
     accum_rule(P, R)
+    initmoles_rule(P, R)
+    inertrelated_rule(P, R)
     # ------------------------------------------------------------------ solid-solution fractions
     R.rule("C03.ssfrac", "solid-solution fractions: total and fractions from the same clamped amounts over the same list; log of the same quotient; ideal <=> both parameters zero; lambda = 1", minimum=6)
     g = P.one("Phreeqc::calc_ss_fractions")
@@ -465,3 +467,84 @@ def accum_rule(P, R):
                                 file=f["file"], line=last[1], function=f["q"])
     if tot < 15:
         R.anchor_missing("C03.accum", "only %d accumulate/use pairs of the element list found" % tot)
+
+
+def initmoles_rule(P, R):
+    """"dissolve_only / precipitate_only restrictions are respected": the restrictions compare the amount of a phase with
+    pp_assemblage_comp::initial_moles, the amount at the start of the calculation, which set_initial_moles(n) records.  Every reaction
+    step is a calculation of its own: in the step drivers (a loop over reaction_step that ends in run_reactions(-2, ...)) every path
+    through the loop body must record the initial moles before the step is run.  If only step 1 (or only the non-incremental steps) does,
+    a dissolve_only mineral that dissolved in an earlier incremental step may precipitate again in a later one."""
+    RULE = "C03.initmoles"
+    R.rule(RULE, "step drivers record the initial moles (set_initial_moles) on every path of the step loop before run_reactions", minimum=2)
+    n = 0
+    for k, g in sorted(P.functions.items(), key=lambda kv: kv[1]["q"]):
+        for lp in T.walk(g["body"]):
+            if lp[0] != "For" or not (T.is_node(lp[3]) and any(y[0] == "Member" and y[2] == "Phreeqc::reaction_step" for y in T.walk(lp[3]))):
+                continue
+            body = lp[5]
+            runs = [c for c in T.calls(body) if T.callee_name(c) == "run_reactions"]
+            if not runs:
+                continue
+            n += 1
+            cfg = T.CFG({"body": body, "line": lp[1], "endline": lp[1]})
+            seen, st, bad = {cfg.entry}, [cfg.entry], None
+            while st:
+                x = st.pop()
+                nd = cfg.nodes[x]["n"]
+                if T.is_node(nd) and any(T.callee_name(c) == "set_initial_moles" for c in T.calls(nd)):
+                    continue
+                if T.is_node(nd) and any(T.callee_name(c) == "run_reactions" for c in T.calls(nd)):
+                    bad = cfg.nodes[x]["line"]
+                    break
+                for y in cfg.nodes[x]["succ"]:
+                    if y not in seen:
+                        seen.add(y)
+                        st.append(y)
+            inst = "%s@%d" % (g["q"].split("::")[-1], lp[1])
+            if bad is None:
+                R.ok(RULE, inst, "set_initial_moles precedes run_reactions on every path of the step loop")
+            else:
+                R.violation(RULE, inst, "a path through the step loop reaches run_reactions (line %d) without set_initial_moles: the dissolve_only / precipitate_only tests of that "
+                            "step compare with the amounts of an earlier step" % bad, file=g["file"], line=bad, function=g["q"])
+    if n < 2:
+        R.anchor_missing(RULE, "only %d step loops over reaction_step that call run_reactions (reactions, run_as_cells)" % n)
+
+
+def inertrelated_rule(P, R):
+    """"Surfaces and exchangers keep their site totals": for the duration of model() set_inert_moles() moves the amount of every
+    precipitate_only phase from unknown::moles to unknown::inert_moles (so that the phase cannot dissolve) and unset_inert_moles() moves it
+    back.  Code that derives the sites or the area of a surface related to a phase from the phase's amount runs in between; it has to
+    read moles + inert_moles.  Every expression that reads `<u>->phase_unknown->moles` must read `<u>->phase_unknown->inert_moles` too."""
+    RULE = "C03.inertrelated"
+    R.rule(RULE, "every read of phase_unknown->moles (amount of the phase a surface is related to) is accompanied by inert_moles of the same unknown", minimum=5)
+    setters = [g for g in P.functions.values() if g["q"] == "Phreeqc::set_inert_moles"]
+    if not setters:
+        R.anchor_missing(RULE, "set_inert_moles not found")
+        return
+    n = 0
+    for k, g in sorted(P.functions.items(), key=lambda kv: kv[1]["q"]):
+        def rec(node, top):
+            nonlocal n
+            if not T.is_node(node):
+                return
+            # `top` = the enclosing full expression (statement-level expression or condition)
+            is_stmt = node[0] in ("Compound", "If", "For", "While", "Do", "Switch", "Case", "Default", "Label", "Try")
+            for ch in T.children(node):
+                rec(ch, None if is_stmt else (top if top is not None else node))
+            if node[0] == "Member" and node[2] == "unknown::moles" and T.is_node(T.strip_casts(node[3])) and T.strip_casts(node[3])[0] == "Member" \
+                    and T.strip_casts(node[3])[2] == "unknown::phase_unknown":
+                expr = top if top is not None else node
+                base = " ".join(T.text(node[3]).split())
+                ok = any(y[0] == "Member" and y[2] == "unknown::inert_moles" and " ".join(T.text(y[3]).split()) == base for y in T.walk(expr))
+                n += 1
+                inst = "%s@%d" % (g["q"].split("::")[-1], node[1])
+                if ok:
+                    R.ok(RULE, inst, "%s->moles + inert_moles" % base[:40])
+                else:
+                    R.violation(RULE, inst, "`%s->moles` is read without inert_moles: during model() the amount of a precipitate_only phase is parked there, so a surface related to "
+                                "such a phase gets the sites of the newly precipitated part only and loses them in the next calculation" % base[:50],
+                                file=g["file"], line=node[1], function=g["q"])
+        rec(g["body"], None)
+    if n < 5:
+        R.anchor_missing(RULE, "only %d reads of phase_unknown->moles" % n)
